@@ -265,6 +265,9 @@ class Engine:
     def is_none(self, st, v):
         if v.t == NONE: return z3.BoolVal(True)
         if isinstance(v.t, OptT): return opt_is_none(v.t, v.z)
+        if isinstance(v.t, OpaqueT) and v.t.n == 'Dyn':
+            from . import dyn
+            return v.z == dyn.NONE_D                     # an abstract value may be None: both branches are explored
         return z3.BoolVal(False)
 
     # ---------------------------------------------------------------- exceptions
